@@ -452,7 +452,7 @@ func (vm *VM) extractLatestOutputBlock(ctx context.Context) (*chain.OutputBlock,
 	if err != nil {
 		return nil, fmt.Errorf("failed to get last accepted height: %w", err)
 	}
-	if lastIndexedHeight != stateHeight && lastIndexedHeight != stateHeight+1 {
+	if lastIndexedHeight < stateHeight {
 		return nil, fmt.Errorf("cannot extract latest output block from invalid state with last indexed height %d and state height %d", lastIndexedHeight, stateHeight)
 	}
 
@@ -487,20 +487,18 @@ func (vm *VM) extractLatestOutputBlock(ctx context.Context) (*chain.OutputBlock,
 		}, nil
 	}
 
-	// The last indexedHeight must be stateHeight+1, so we can execute the last block to populate
-	// execution results
-	blk, err := vm.chainStore.GetBlockByHeight(ctx, stateHeight+1)
+	// The chain index is ahead of the committed state: the node stopped while accepted blocks
+	// were still queued for processing. Return the block matching the committed state and let
+	// the snow package re-process the remaining accepted blocks on top of it.
+	blk, err := vm.chainStore.GetBlockByHeight(ctx, stateHeight)
 	if err != nil {
 		return nil, fmt.Errorf("failed to get block at latest state height %d: %w", stateHeight, err)
 	}
-	outputBlock, err := vm.chain.Execute(ctx, vm.stateDB, blk, false)
-	if err != nil {
-		return nil, fmt.Errorf("failed to execute block at latest state height %d: %w", stateHeight, err)
-	}
-	if _, err := vm.AcceptBlock(ctx, nil, outputBlock); err != nil {
-		return nil, err
-	}
-	return outputBlock, nil
+	return &chain.OutputBlock{
+		ExecutionBlock:   blk,
+		View:             vm.stateDB,
+		ExecutionResults: &chain.ExecutionResults{},
+	}, nil
 }
 
 func (vm *VM) initGenesisAsLastAccepted(ctx context.Context) (*chain.OutputBlock, error) {
